@@ -111,6 +111,17 @@ HANDLERS = {'call': do_call, 'call2': do_call2}
 
 
 def handle(req):
+    out = _handle(req)
+    # search requests report {'found': case-or-None}: give them the uniform 'violates' / 'what' keys as well
+    if isinstance(out, dict) and 'found' in out and 'violates' not in out:
+        f = out.get('found')
+        out['violates'] = bool(f)
+        if isinstance(f, dict):
+            out.setdefault('what', f.get('what', ''))
+    return out
+
+
+def _handle(req):
     k = req.get('kind')
     if k in HANDLERS:
         return HANDLERS[k](req)
